@@ -99,6 +99,7 @@ int main(int argc, char** argv) {
         switch (cls) {
         case 'L': case 'U': case 'G': { Plan p = gen_plan(r, cls, k / 3 + (long)(R.seed % 7)); run_case(E, p, r, ls); break; }
         case 'S': run_stress(E, r); break;
+        case 'C': run_credit(E, r); break;
         case 'Q': case 'R': case 'P': run_abort(E, r, cls, wedgeable); break;
         case 'B': run_fault_B(E, r, k); break;
         default: fprintf(stderr, "unknown mode %s\n", mode.c_str()); return 2;
